@@ -8,7 +8,7 @@ from ..core import Undecided, attr_chain, norm, short, walk_no_nested, call_meth
 from ..paths import enumerate_paths, Path
 from ..consteval import fold_expr
 from ..report import RuleCtx
-from .c02_model import NodeModel, MPARSER, VISITOR, PRINTER, params_of, unroll_tables, inline_self_calls, desugar_with, emission, chunk_buffers
+from .c02_model import NodeModel, MPARSER, VISITOR, PRINTER, params_of, unroll_tables, inline_self_calls, desugar_with, emission, chunk_buffers, class_callables
 
 # Reference (DESIGN A.5, read from Parser.args/key_values): in an argument list every positional argument is followed by its
 # comma; then every keyword entry is key, colon, value followed by its comma.  All other classes: declaration (= textual) order.
@@ -23,6 +23,7 @@ class Visitors:
         self.pm = repo.module(PRINTER)
         self.vm = repo.module(VISITOR)
         self.chain: T.List[T.Tuple[T.Any, ast.ClassDef]] = []
+        self._callables: T.Dict[str, T.Dict[str, ast.FunctionDef]] = {}
         mod, name = self.pm, leaf
         for _ in range(6):
             c = mod.cls(name)
@@ -41,10 +42,14 @@ class Visitors:
                 break
 
     def resolve(self, meth: str) -> T.Optional[T.Tuple[T.Any, str, ast.FunctionDef]]:
+        def find_class(n: str) -> T.Optional[ast.ClassDef]:
+            return self.pm.cls(n) if self.pm.has_cls(n) else self.vm.cls(n) if self.vm.has_cls(n) else None
         for mod, c in self.chain:
-            for st in c.body:
-                if isinstance(st, ast.FunctionDef) and st.name == meth:
-                    return mod, f'{c.name}.{meth}', st
+            if c.name not in self._callables:
+                self._callables[c.name] = class_callables(c, find_class)
+            st = self._callables[c.name].get(meth)
+            if st is not None:
+                return mod, f'{c.name}.{meth}', st
         return None
 
     def resolve_visit(self, cls: str) -> T.Optional[T.Tuple[T.Any, str, ast.FunctionDef, T.List[str]]]:
@@ -97,7 +102,10 @@ def _field_map(fn: ast.FunctionDef, node: str, fields: T.Set[str]) -> T.Dict[str
     env: T.Dict[str, str] = {}
 
     def field_of(e: ast.AST) -> T.Optional[str]:
-        while isinstance(e, ast.Call):
+        while isinstance(e, (ast.Call, ast.Subscript)):
+            if isinstance(e, ast.Subscript):      # an element / a slice of a list field
+                e = e.value
+                continue
             m = call_method(e)
             if m == 'getattr' and len(e.args) == 2 and isinstance(e.args[0], ast.Name) and e.args[0].id == node \
                     and isinstance(e.args[1], ast.Constant) and e.args[1].value in fields:
@@ -115,6 +123,9 @@ def _field_map(fn: ast.FunctionDef, node: str, fields: T.Set[str]) -> T.Dict[str
         return None
 
     def bind(t: ast.AST, src: ast.AST) -> None:
+        if isinstance(t, (ast.Tuple, ast.List)) and isinstance(src, ast.Call) and call_method(src) == 'enumerate' and len(t.elts) == 2 and src.args:
+            bind(t.elts[1], src.args[0])      # (index, element)
+            return
         if isinstance(t, (ast.Tuple, ast.List)) and isinstance(src, ast.Call) and call_method(src) in ('zip', 'zip_longest') and len(src.args) == len(t.elts):
             for a, b in zip(t.elts, src.args):
                 bind(a, b)
@@ -638,10 +649,25 @@ def check_list_order(ctx: RuleCtx, model: NodeModel) -> None:
                                 and (attr_chain(st.func.value) or '').startswith('self.') and (attr_chain(st.func.value) or '')[5:] in multi \
                                 and {x.id for a in st.args for x in ast.walk(a) if isinstance(x, ast.Name)} & ps:
                             tg.add((attr_chain(st.func.value) or '')[5:])
+                    if tg or any(isinstance(c_, ast.Call) and (attr_chain(c_.func) or '').startswith('self.') for c_ in walk_no_nested(m)):
+                        writes.setdefault('__pending__', set())
                     if tg:
                         if any(isinstance(x, ast.Raise) for x in walk_no_nested(m)):
                             raise Undecided(f'{cls}.{m.name} stores into {sorted(tg)} and can raise; whether it rejects out-of-order stores is not followed')
                         writes[m.name] = tg
+        writes.pop('__pending__', None)
+        # a method that hands its parameters to another storing method of the node (`self.set_kwarg_no_check(name, value)`) stores too
+        for _ in range(3):
+            for c in model.mro(cls):
+                for m in c.body:
+                    if isinstance(m, ast.FunctionDef) and m.name != '__init__':
+                        ps = set(params_of(m)[1:])
+                        for c_ in walk_no_nested(m):
+                            if isinstance(c_, ast.Call) and (attr_chain(c_.func) or '').startswith('self.') and (attr_chain(c_.func) or '')[5:] in writes \
+                                    and {x.id for a in list(c_.args) + [k.value for k in c_.keywords] for x in ast.walk(a) if isinstance(x, ast.Name)} & ps:
+                                if any(isinstance(x, ast.Raise) for x in walk_no_nested(m)):
+                                    raise Undecided(f'{cls}.{m.name} stores through `{short(c_)}` and can raise; not followed')
+                                writes.setdefault(m.name, set()).update(writes[(attr_chain(c_.func) or '')[5:]])
         for a_i, A in enumerate(multi):
             for B in multi:
                 if A == B or A not in full or B not in full:
@@ -687,4 +713,5 @@ def check_list_order(ctx: RuleCtx, model: NodeModel) -> None:
                                       f'an accepted text with a {A[:-1] if A.endswith("s") else A} after a {B[:-1] if B.endswith("s") else B} is printed in a different order', ac)
                     else:
                         ctx.ok(f'Parser.{pname}: no store into {cls}.{A} is reachable after a store into {cls}.{B} ({len(sa_)}x{len(sb_)} site pairs)')
-    ctx.floor('parser methods filling separately replayed lists of one node', n, 1)
+    if n == 0:
+        raise Undecided('no parser method was found that fills two separately replayed child lists of one node through the node class methods')
